@@ -12,6 +12,7 @@ import (
 	"github.com/mimecast/dtail/internal/clients"
 	chandlers "github.com/mimecast/dtail/internal/clients/handlers"
 	"github.com/mimecast/dtail/internal/config"
+	"github.com/mimecast/dtail/internal/mapr"
 	"github.com/mimecast/dtail/verif/core"
 	"golang.org/x/crypto/ssh"
 )
@@ -125,6 +126,39 @@ func raceLongLines() {
 	wg.Wait()
 }
 
+// raceColdParse: the first mapreduce queries of a process are parsed by several goroutines at once (dserver starts
+// all continuous jobs together two seconds after start-up; several clients send map commands to a fresh server).
+// Every result is also compared with the query's denotation.
+func raceColdParse(c *core.Ctx) {
+	const q = "select count($line),avg(x),last(host) from STATS where x > 1 and host eq \"a b\" group by host order by count($line) interval 3 limit 5 outfile \"o.csv\""
+	var wg sync.WaitGroup
+	start := make(chan struct{})
+	bad := make(chan string, 64)
+	for g := 0; g < 16; g++ {
+		wg.Add(1)
+		go func() {
+			defer wg.Done()
+			<-start
+			p, err := mapr.NewQuery(q)
+			if err != nil {
+				bad <- "rejected: " + err.Error()
+				return
+			}
+			if len(p.Select) != 3 || p.Table != "STATS" || len(p.Where) != 2 || len(p.GroupBy) != 1 || p.Limit != 5 || p.Outfile == nil || p.Interval != 3*time.Second {
+				bad <- fmt.Sprintf("misparsed: %d select fields, table %q, %d conditions, %d group keys, limit %d, interval %v", len(p.Select), p.Table, len(p.Where), len(p.GroupBy), p.Limit, p.Interval)
+			}
+		}()
+	}
+	close(start)
+	wg.Wait()
+	close(bad)
+	c.Count("cold-start-parse")
+	for b := range bad {
+		c.Violation("first-queries-of-a-process-parsed-concurrently-misread", "16 goroutines parse the same valid query as the first parses of the process: "+b, q)
+		break
+	}
+}
+
 func racePass(c *core.Ctx) {
 	os.Setenv("VERIF_NATIVE_LOGGER", "stdout")
 	Setup()
@@ -153,6 +187,20 @@ func racePass(c *core.Ctx) {
 }
 
 func init() {
+	core.Register(&core.Check{
+		ID:          "C11R",
+		ReportAs:    "C11",
+		Level:       "exploration",
+		Rule:        "free-running -race pass: the FIRST queries of a fresh process are parsed by 16 goroutines at once (as dserver's continuous jobs and concurrent map commands do); every data race in the parser packages is a violation, and every result must be the query's denotation",
+		Assumptions: []string{"the race detector reports races on the executed paths only (happens-before based)"},
+		Serial:      true,
+		QuickBudget: 100 * time.Second,
+		RaceFilter:  []string{"internal/mapr"},
+		Run: func(c *core.Ctx) {
+			Setup()
+			raceColdParse(c)
+		},
+	})
 	for _, p := range []string{"C16", "C07", "C02", "C06", "C13", "C08"} {
 		core.Register(&core.Check{
 			ID:       p + "R",
